@@ -45,7 +45,7 @@ prop("C01", "exploration",
 
 FAM = ("a drawn archive (as C01) plus drawn seeds (0..3: edits of the source -- insert/delete/replace/move/duplicate/truncate/append/swap --, the source itself, empty, unrelated, "
        "chunk-permuted), seed files and/or stdin in drawn order, a drawn prior output (absent / existing file / faked block device >= source; related, permuted, unrelated, shorter, longer), "
-       "--seed-output or not (a third of the in-place CLI runs also pass --force-create, which must change nothing), through bita clone (syscall seam) or the library flow of examples/local-cloner.rs (SimFile/SimSource), local or simulated HTTP (a quarter with a generous --http-timeout, a fifth with --http-header credentials that the server insists on for every request), under drawn pool schedules and read/body fragmentation; no faults. ")
+       "--seed-output or not (a third of the in-place CLI runs also pass --force-create, which must change nothing), through bita clone (syscall seam) or the library flow of examples/local-cloner.rs (SimFile/SimSource), local or simulated HTTP (a quarter with a generous --http-timeout, a fifth with --http-header credentials that the server insists on for every request); a tenth of the seed files are block devices (stat size 0, content by reading), under drawn pool schedules and read/body fragmentation; no faults. ")
 
 prop("C02", "exploration",
      FAM + "Oracle: the clone succeeds and the output is byte-identical to the source (regular files also have the source's length). Truncated-hash collisions between different chunks (only possible for hash length < 8) are recognised and exempted. "
